@@ -82,6 +82,9 @@ def run(ctx):
     if known != "PATMOS-x, v2023":
         ctx.violation("the shipped coefficient file is not recognised as 'PATMOS-x, v2023' (version %r)" % (known,), {}, cls="version-shipped")
     sats = sorted(s for s in table0 if isinstance(table0[s], dict) and "channel_1" in table0[s])
+    # the second unrecognised file is REWRITTEN now and then while another file is the current one; every content it has
+    # had is a file id of its own for the expectation and the model (ids 3, 4, 5, ... all live at path p3)
+    state3 = {"cur": 3, "next": 4}
     saved = (Calibrator.default_coeffs, Calibrator.default_file, Calibrator.default_version)
     drv = []
     nhist = ctx.n(60, 4000)
@@ -107,7 +110,23 @@ def run(ctx):
             live_shared = copy.deepcopy(shared)
             for i in range(length):
                 sat = focus_sat if rng.random() < 0.6 else rng.choice(sats)
+                rewrite_to = None
+                if prev is not None and paths[prev[1]] != p3 and rng.random() < 0.25:
+                    # ids stay single digits (3..9, round robin, never the one in use): the source labels are one character
+                    rewrite_to = 3 + (state3["next"] - 3) % 7
+                    if rewrite_to == state3["cur"]:
+                        state3["next"] += 1
+                        rewrite_to = 3 + (state3["next"] - 3) % 7
+                    state3["next"] += 1
+                    if rng.random() < 0.3:
+                        tables[rewrite_to], versions[rewrite_to] = json.loads(content), known      # now a copy of the shipped file
+                    else:
+                        tables[rewrite_to], versions[rewrite_to] = perturb(copy.deepcopy(tables[rng.choice([0, 2, state3["cur"]])]), rng), None
+                    paths[rewrite_to] = p3
+                    state3["cur"] = rewrite_to
                 f = rng.choice([0, 0, 1, 2, 3, 3]) if rng.random() < 0.5 and prev else (prev[1] if prev else rng.choice([0, 1, 2, 3]))
+                if paths[f] == p3:
+                    f = state3["cur"]
                 keys = list(tables[f][sat].keys())
                 nc = rng.choice([0, 0, 1, 2, 3])
                 ck = sorted(rng.sample(range(len(keys)), min(nc, len(keys))))
@@ -124,13 +143,16 @@ def run(ctx):
                 if shared is not None and rng.random() < 0.7:
                     custom = copy.deepcopy(shared)
                     ck = sorted(keys.index(k_) for k_ in shared)
-                    reqs.append((sat, f, keys, ck, custom, True))
+                    reqs.append((sat, f, keys, ck, custom, True, rewrite_to))
                 else:
-                    reqs.append((sat, f, keys, ck, custom, False))
-                hist_payload.append({"sat": sat, "file": f, "custom_keys": [keys[k] for k in ck]})
+                    reqs.append((sat, f, keys, ck, custom, False, rewrite_to))
+                hist_payload.append({"sat": sat, "file": f, "custom_keys": [keys[k] for k in ck], "path3_rewritten_before": rewrite_to})
                 prev = (sat, f)
             tokens = []
-            for i, (sat, f, keys, ck, custom, use_shared) in enumerate(reqs):
+            for i, (sat, f, keys, ck, custom, use_shared, rewrite_to) in enumerate(reqs):
+                if rewrite_to is not None:
+                    with open(p3, "wb") as fh3:
+                        fh3.write(content if versions[rewrite_to] is not None else json.dumps(tables[rewrite_to]).encode())
                 with warnings.catch_warnings():
                     warnings.simplefilter("ignore")
                     try:
@@ -159,7 +181,7 @@ def run(ctx):
                 src = []
                 for k, key in enumerate(keys):
                     probe = {}
-                    for cand, lab in [(custom.get(key, None), "C")] + [(tables[g][sat][key], str(g)) for g in (f, 0, 1, 2, 3)]:
+                    for cand, lab in [(custom.get(key, None), "C")] + [(tables[g][sat][key], str(g)) for g in [f, 0, 1, 2] + sorted(g_ for g_ in tables if g_ >= 3)]:
                         if cand is None:
                             continue
                         m2 = dict(merged)
@@ -176,7 +198,8 @@ def run(ctx):
                 ctx.case((h, i), nontrivial=(i == 0 or reqs[i][:2] != reqs[i - 1][:2] or bool(ck)), branch="custom%d" % len(ck))
             # shared defaults untouched
             if Calibrator.default_coeffs is not None:
-                ref = tables[[k for k, v in paths.items() if v == Calibrator.default_file][0]] if Calibrator.default_file in paths.values() else None
+                last_f = reqs[-1][1] if reqs else None       # the file of the last request is the one the class holds
+                ref = tables[last_f] if last_f is not None and paths[last_f] == Calibrator.default_file else None
                 if ref is not None and Calibrator.default_coeffs != ref:
                     ctx.violation("after the history the class-level default coefficients differ from the content of their file",
                                   {"history": hist_payload}, cls="defaults-mutated")
@@ -215,7 +238,7 @@ def run(ctx):
             norm = lambda s: s.replace("1", "0")   # noqa
             if norm(msrc) != norm(isrc) or norm(mver) != norm(iver):
                 ctx.corr_break("request %d of history %s: model sources %s, implementation %s" % (item[0], grp[0][2][:4], mt, impl))
-    ctx.assumptions += ["files do not change on disk under the same path during a history (the cache is keyed by file name)",
+    ctx.assumptions += ["a file's content changes on disk only while ANOTHER file is the current one (the cache is keyed by file name: a file rewritten while it is the current one is not re-read - read as outside the property)",
                         "the byte-identical copy and the shipped file are indistinguishable by content (labels 0/1 identified)"]
 
 
